@@ -305,6 +305,48 @@ def emit_form(f):
     return 'unknown:' + ','.join(sorted(set(n for n in names if n.startswith('compose'))))[:60]
 
 
+def emit_form_ir(ctx, c, prm):
+    """the same classification read from the composer's wire layout (helpers inlined through the MRO, so template-method and
+    extracted-helper shapes of compose classify like the flat one); None when the layout does not have a recognisable shape"""
+    try:
+        cn = ctx.canon.canon(c, 'compose')
+    except Exception:      # pylint: disable=broad-except
+        return None
+    if cn is None:
+        return None
+    els = list(cn.elements)
+    while len(els) == 1 and els[0].kind == 'sliced':
+        els = list(els[0].body)
+    if els and els[0].kind == 'u' and len(els) >= 2:
+        els = els[1:]
+    if not els:
+        return None
+    e = els[0]
+    if e.kind == 'array' and e.body and e.body[0].kind == 'u' and isinstance(e.body[0].w, int):
+        w = e.body[0].w
+        return 'fixed:%d' % w
+    if e.kind == 'narray':
+        sep = e.extra.get('separator') if e.extra else None
+        from ..values import BytesV
+        joined = sep is not None and not (isinstance(sep, BytesV) and not sep.parts) and sep not in (b'', '')
+        return 'joined' if joined else 'composed'
+    if e.kind in ('t:parsable_array', 't:string_array'):
+        return 'joined'
+    if e.kind == 'repeat' and e.body:
+        body = list(e.body)
+        if len(body) == 1 and body[0].kind in ('alt', 'tryalt'):
+            leaves = list(body[0].a) + list(body[0].b)
+            if leaves and all(x.kind == 'nested' or (x.kind == 'u' and x.extra.get('enum_coded')) for x in leaves):
+                return 'code-width'
+        if len(body) == 1 and body[0].kind == 'u' and body[0].extra.get('enum_coded'):
+            return 'code-width'
+        if len(body) == 2 and body[0].kind == 'u' and body[1].kind == 'text':
+            return 'prefix+code'
+        if len(body) == 1 and body[0].kind == 'nested':
+            return 'composed'
+    return None
+
+
 COMPATIBLE = {
     ('fixed:item_size', 'fixed:item_size'): 'n items of item_size bytes',
     ('fixed:1', 'fixed:1'): 'opaque bytes, one per item',
@@ -337,12 +379,18 @@ def item_size_agreement(ctx, report, ab, RULE='C12.R7', title='the size counted 
         report.count(RULE)
         report.touch(gis)
         report.touch(comp)
-        sf, ef = size_form(gis), emit_form(comp)
-        if ef == 'delegates' or comp.cls.name == 'TlsHandshakeHelloRandomBytes':
+        sf, ef = size_form(gis), emit_form_ir(ctx, c, prm)
+        if ef is None:
+            ef = emit_form(comp)        # layout not derivable: classify the composer by its own statements
+        if ef == 'delegates' or (ef.startswith('unknown') and comp.cls.name == 'TlsHandshakeHelloRandomBytes'):
             # fixed 32 byte random: composes through Vector.compose of its base and strips the synthetic prefix
             base_comp = [k for k in c.mro[1:] if isinstance(k, ClassInfo) and 'compose' in k.methods and k is not comp.cls]
             if base_comp:
                 ef = emit_form(base_comp[0].methods['compose'])
+        if ef.startswith('fixed:') and ef[6:].isdigit() and sf in ('fixed:item_size', 'fixed:1'):
+            # widths from the layout: the counted size per item has to be the width the composer writes per item
+            counted = prm.attrs.get('item_size') if sf == 'fixed:item_size' else 1
+            ef = sf if counted == int(ef[6:]) else ef
         if (sf, ef) in COMPATIBLE:
             report.sample({'rule': RULE, 'class': c.name, 'counts': sf, 'emits': ef, 'why': COMPATIBLE[(sf, ef)]}, 14)
             continue
